@@ -4,7 +4,7 @@ from hypothesis import strategies as st
 import gen
 import model as M
 import oracle
-from common import ModelRun, crash_result, model_classes
+from common import warmup, ModelRun, crash_result, model_classes
 from drive import Result
 
 RULE = ("Hypothesis generates heterogeneous lattices (spinless, spin-1/2 and 3-spin sites, 1-3 orbitals), Hermitian "
@@ -94,6 +94,7 @@ def execute(case, ctx):
         queries.append((("map", "cdag", i, -1), "opmap cdag %d" % i))
     for i, j in case["quad"]:
         queries.append((("map", "quad", i, j), "opmap quad %d %d" % (i, j)))
+    warmup(ctx, mdl, upto="hprepare")
     run = ModelRun(ctx, mdl, queries, upto="hprepare")
     classes = model_classes(mdl)
     symm = mdl.get("symm") or {"mode": "default"}
